@@ -825,3 +825,16 @@ Proof.
       destruct Ho as (pre & k & h & pdu & Hn & Hp & He & ->). exists pre, k, h, pdu. auto.
     + intros k ev Hin. destruct (Hev k ev Hin) as (_ & Hx). exact Hx.
 Qed.
+
+Lemma master_projects_both : forall pa bufsize m0 cs m' outs log,
+  d_run pa bufsize m0 cs [] = Ok (m', outs, log) ->
+  contract_m None outs = true ->
+  (forall k p0, slot m0 k = Some p0 ->
+     exists pcs pk, p_run pa p0 pcs = Ok (pk, proj k log) /\ contract_p false (proj k log) = true /\
+                    slot m' k = Some pk) /\
+  (forall k a o i q d, slot m0 k = Some (periph_new a o i q d) -> history pa a o (proj k log)).
+Proof.
+  intros pa bufsize m0 cs m' outs log H C. split.
+  - apply (master_projects pa bufsize m0 cs m' outs log H C).
+  - apply (master_history pa bufsize m0 cs m' outs log H C).
+Qed.
